@@ -130,9 +130,13 @@ def run_case(case):
                         pass
         else:
             k = r.randint(0, 4)
+            big = r.random() < 0.12
+            if big:
+                # many categories (all valid codes): sizes around the limits of the small integer types
+                k = r.choice([127, 128, 129, 200, 255, 256, 257, 300, 1000])
             vals = []
             for i in range(k):
-                m = r.random()
+                m = 0.0 if big else r.random()
                 if m < 0.6:
                     vals.append(i)
                 elif m < 0.7:
@@ -160,7 +164,9 @@ def run_case(case):
             out["evals"] += 1
             sigs.add(("disc", isdc, tuple(tname(v) for v in vals), outcome))
             out["hist"][f"disc:{outcome.split(':')[0]}"] = out["hist"].get(f"disc:{outcome.split(':')[0]}", 0) + 1
-            desc = f"DiscreteGrid(dataclass={isdc}, field values={vals!r})"
+            desc = f"DiscreteGrid(dataclass={isdc}, field values={vals!r})" if len(vals) < 20 else f"DiscreteGrid(dataclass={isdc}, field values=0..{len(vals) - 1})"
+            if big:
+                out["hist"]["disc:many_categories"] = out["hist"].get("disc:many_categories", 0) + 1
             numerically_codes = isdc and len(vals) > 0 and all(isinstance(v, (int, float)) and v == i for i, v in enumerate(vals))
             if outcome.startswith("Internal"):
                 vs.append({"clause": "constructing a grid either raises the grid initialization error or yields a grid", "detail": f"{desc}: {outcome}", "key": "C16:errkind"})
@@ -171,7 +177,7 @@ def run_case(case):
             elif outcome == "accepted":
                 arr = np.asarray(g.to_jax())
                 if [float(x) for x in arr] != [float(i) for i in range(len(vals))]:
-                    vs.append({"clause": "the array form of a discrete grid is its codes", "detail": f"{desc}: {arr.tolist()}", "key": "C16:codes"})
+                    vs.append({"clause": "the array form of a discrete grid is its codes", "detail": f"{desc}: {arr.tolist()[:12]}...{arr.tolist()[-4:]}", "key": "C16:codes"})
     out["sig"] = None
     out["sample"] = sample
     out["_sigs"] = sorted(map(repr, sigs))
